@@ -489,7 +489,8 @@ func (fc *FuncCtx) contractCall(fr *Frame, st *State, com *ssa.CallCommon, key s
 	cshort := shortFuncName(key)
 	fc.callCount[cshort]++
 	ord := fc.callCount[cshort]
-	// lemma instances requested by the caller's contract for this call site
+	// lemma instances requested by the caller's contract for this call site (used for this call's obligations only)
+	var hints []*Term
 	var patKeys []string
 	for pat := range fc.spec.CallReq {
 		patKeys = append(patKeys, pat)
@@ -501,9 +502,19 @@ func (fc *FuncCtx) contractCall(fr *Frame, st *State, com *ssa.CallCommon, key s
 		}
 		for _, cl := range fc.spec.CallReq[pat] {
 			if cl.Where == "use" {
-				fc.applyUse(st, env, cl)
+				t, err := v.useTerm(env.withState(st), cl.E)
+				if err != nil {
+					panic(specError{fmt.Sprintf("call %s use (line %d): %v", pat, cl.Line, err)})
+				}
+				hints = append(hints, t)
 			}
 		}
+	}
+	withHints := func(pc []*Term) []*Term {
+		if len(hints) == 0 {
+			return pc
+		}
+		return append(append([]*Term{}, pc...), hints...)
 	}
 	// callee preconditions
 	calleeEnv := &Env{v: v, vars: env.vars, lets: map[string]string{}, st: st, old: st}
@@ -525,7 +536,7 @@ func (fc *FuncCtx) contractCall(fr *Frame, st *State, com *ssa.CallCommon, key s
 		}
 		if !t.IsTrue() && !(spec.Lib && fc.spec.Allow["libpre"]) {
 			v.addObligation(&Obligation{Name: fmt.Sprintf("%s#call%d[%s].pre.%s", fc.short, ord, cshort, label), Kind: kind, Func: fc.key,
-				Pos: v.fset.Position(ins.Pos()).String(), Assume: st.pc, Goal: t, Expect: "unsat", Src: r.Src})
+				Pos: v.fset.Position(ins.Pos()).String(), Assume: withHints(st.pc), Goal: t, Expect: "unsat", Src: r.Src})
 		}
 		st.assume(c, t)
 	}
@@ -548,7 +559,7 @@ func (fc *FuncCtx) contractCall(fr *Frame, st *State, com *ssa.CallCommon, key s
 				label = fmt.Sprint(i + 1)
 			}
 			v.addObligation(&Obligation{Name: fmt.Sprintf("%s#call%d[%s].requires.%s", fc.short, ord, cshort, label), Kind: "call", Func: fc.key,
-				Pos: v.fset.Position(ins.Pos()).String(), Assume: st.pc, Goal: t, Expect: "unsat", Src: cl.Src})
+				Pos: v.fset.Position(ins.Pos()).String(), Assume: withHints(st.pc), Goal: t, Expect: "unsat", Src: cl.Src})
 		}
 	}
 	res := com.Signature().Results()
